@@ -1,5 +1,5 @@
 From Coq Require Import List NArith Arith.
-From SK Require Import lib.LGraph lib.Mono model.C11_Model proof.C11_Aut proof.C11_WL proof.C11_Dedup proof.C11_Main proof.C11_Comp proof.C11_VF2 proof.C11_Vocab proof.C11_Sig proof.C11_Anchor model.C11_State proof.C11_StateProof model.C11_Partial proof.C11_PartialProof.
+From SK Require Import lib.LGraph lib.Mono model.C11_Model proof.C11_Aut proof.C11_WL proof.C11_Dedup proof.C11_Main proof.C11_Comp proof.C11_VF2 proof.C11_Vocab proof.C11_Sig proof.C11_Anchor model.C11_State proof.C11_StateProof model.C11_Partial proof.C11_PartialProof proof.C11_PruneClass.
 Import ListNotations.
 
 (** Vocabulary (definitions in proof/C11_Aut.v, written out here for the reader):
@@ -275,6 +275,21 @@ Theorem C11_prune_complete_aut :
         forall p h, In (p, h) (key x) <-> exists p', In (p', h) (key y) /\ p = s p'.
 Proof. exact prune_complete_fun. Qed.
 Print Assumptions C11_prune_complete_aut.
+
+(** Clause 4, exactness (round 3): for a duplicate-free list of matches that live on nodes of the rule centre, a match is
+    kept IFF no EARLIER raw match differs from it by an automorphism of the rule centre.  With C11_prune_complete_aut:
+    the output consists of exactly one representative - the earliest - of every class, in input order. *)
+Theorem C11_prune_first_of_class :
+  forall (X : Type) (key : X -> mapping) (rc : graph) (raw : list X),
+    simple_graph rc -> NoDup raw ->
+    (forall x, In x raw -> forall p h, In (p, h) (key x) -> In p (node_ids rc)) ->
+    forall x, In x (prune key rc raw) <->
+      (In x raw /\
+       forall l1 l2, raw = l1 ++ x :: l2 -> forall z, In z l1 ->
+         ~ exists s, is_automorphism n_full e_full rc s /\
+                     forall p h, In (p, h) (key x) <-> exists p', In (p', h) (key z) /\ p = s p').
+Proof. exact prune_first_of_class. Qed.
+Print Assumptions C11_prune_first_of_class.
 
 (** Clause 4, second half: hence every result function [res] (gluing the rule at a match, up to the identification
     used for "distinct") that depends only on the item set of a match and is invariant under the rule automorphisms
